@@ -9,6 +9,7 @@ import (
 	"strings"
 
 	"github.com/nspcc-dev/neo-go/pkg/config"
+	"github.com/nspcc-dev/neo-go/pkg/core/transaction"
 )
 
 func c05N(i int) string { return fmt.Sprintf("%d%%N", i) }
@@ -176,6 +177,8 @@ func c05OpTerm(c *c05Chain, op c05Op, sysfee int64) string {
 		return fmt.Sprintf("(ONeoT %s %s %s)", c05N(from), c05N(op.To), coqZi(op.A))
 	case "gt":
 		return fmt.Sprintf("(OGasT %s %s %s DNone)", c05N(from), c05N(op.To), coqZi(op.A))
+	case "na":
+		return fmt.Sprintf("(OGasT %s %s %s DNone)", c05N(op.F), c05N(op.To), coqZi(op.A))
 	case "vote":
 		k := op.K
 		if op.To > 0 {
@@ -331,6 +334,16 @@ func c05TxTerms(c *c05Chain, ops []c05Op, b *c05BlockRec) string {
 			res = "(Some true)"
 		} else if t.Res == 0 {
 			res = "(Some false)"
+		}
+		if nas := tx.GetAttributes(transaction.NotaryAssistedT); len(nas) != 0 {
+			// NotaryAssisted: (NKeys, payer); the payer is the second signer when the Notary contract is the sender
+			payer := t.Sender
+			if t.Sender == c05ANotary && len(tx.Signers) == 2 {
+				payer = c.u.acct(tx.Signers[1].Account)
+			}
+			xs = append(xs, fmt.Sprintf("mkTxA %s %d %d %s %s %s %s (Some (%d, %s))", c05N(t.Sender), tx.SystemFee, tx.NetworkFee, csig,
+				c05OpTerm(c, op, tx.SystemFee), coqBool(t.Halt), res, nas[0].Value.(*transaction.NotaryAssisted).NKeys, c05N(payer)))
+			continue
 		}
 		xs = append(xs, fmt.Sprintf("mkTx %s %d %d %s %s %s %s", c05N(t.Sender), tx.SystemFee, tx.NetworkFee, csig,
 			c05OpTerm(c, op, tx.SystemFee), coqBool(t.Halt), res))
